@@ -446,6 +446,11 @@ read_chunk()
 {
     // TODO: enforce chunk alignment!
 
+    if (reached_eof_chunk) {
+        state_ = ReadState::Error;
+        error_msg_ = "Data after EOF chunk";
+        return;
+    }
     ChunkHeader header;
     auto decoder = stream_.make_decoder(ovmb_size<ChunkHeader>);
     read(decoder, header);
